@@ -9,6 +9,9 @@ def run(tier):
     r = tlc.run("Slab.tla", "Slab_quick.cfg" if quick else "Slab_thorough.cfg", workers=12, timeout=3000, heap="16g")
     c.add_tlc(r, "segment tables x thickness x truncation x min depth x trench direction x dip side; exact planar construction")
     beh = list(dict.fromkeys(r.behaviours))
+    arcs = tlc.run("MC_Slab_arcs.tla", "Slab_arcs.cfg", workers=2, timeout=600)
+    c.add_tlc(arcs, "arc segments by construct-then-query (symbolic terms)")
+    beh += [b for b in arcs.behaviours if '"arc"' in b[:300]]
     res = replay.replay(exe, beh, shards=16, timeout_s=120)
     c.add_replay(res, "distance_to_plane and membership at 300 lattice points per world")
     c.sample(beh[len(beh) // 2][:2500] + "...")
@@ -19,5 +22,5 @@ def run(tier):
                           "truncation x min depth {0, 100 km}, slabs and faults; 300 lattice points per world in three planes perpendicular to the "
                           "trench: distance from and along the surface (1e-6 relative + 1 m) and membership where no inequality is tight; points in the "
                           "wedge outside a convex kink or equidistant from two segments are not asserted. non-trivial: all worlds")
-    c.assumptions += ["Cartesian, straight segments (equal top and bottom dip); arcs and spherical trenches are covered by C08 (motions) and C13 only"]
+    c.assumptions += ["Cartesian; straight segments exactly, arcs by construct-then-query (6 arc cases, 24-28 constructed points each); spherical trenches are covered by C07 (differential), C08 (motions) and C13 only"]
     return c.finish()
